@@ -117,6 +117,7 @@ class Alarm
     State state_ = State::kNone;  //!< 当前状态
 
     uint32_t target_utc_sec_ = 0;
+    uint32_t fired_utc_sec_ = 0;  //!< 最近一次已经触发了的时间点。target_utc_sec_ 是已定时但还未触发的，两者要分开
 };
 
 }
